@@ -125,8 +125,9 @@ def run(spec):
     chain_len = 0
     install_ad_counter()
     base_fd = 0
+    kept = []  # results the user keeps: they must stay coherent whatever is done with them later
     for step in range(1 + len(spec["chain"])):
-        c = dict(cfg, maxiter=maxiter)
+        c = dict(cfg, maxiter=maxiter, x0_same_object=True)
         ad0 = _AD[0]
         cb_ad = []
         hooks = {"on_cb": (lambda i, xk, st: cb_ad.append(_AD[0] - ad0) and False)}
@@ -159,9 +160,20 @@ def run(spec):
         if out.violations:
             break
         nre += reevaluated(tr)
+        kept.append((step, tr.result, tr.snap))
+        for kstep, kres, ksnap in kept[:-1]:
+            out.count("kept_results_rechecked")
+            bad = probes.diff_states(probes.snap_state(kres), ksnap)
+            if bad:
+                out.violate("kept_result_changed", f"{where}: the result returned by step {kstep} changed afterwards (fields {bad}) although it was only "
+                            f"used as `checkpoint=` / `x0=result.x` of a restart: its fun/jac no longer belong to its x", **dict(tags, where="kept"))
+                break
+        if out.violations:
+            break
         if step < len(spec["chain"]):
             ck = tr.result
-            x0 = np.array(tr.result.x, dtype=float, copy=True)
+            # the idiom of the package's own tests: x0=previous.x (the very same array), checkpoint=previous
+            x0 = tr.result.x if step % 2 == 0 else np.array(tr.result.x, dtype=float, copy=True)
             base_nf, base_ng = int(tr.result.nfev), int(tr.result.njev)
             base_fd = int(tr.result.njev)
             maxiter = int(tr.result.nit) + spec["chain"][step]
